@@ -93,37 +93,32 @@ theorem validate_iff (s : Schema) : validate s = .ok true ↔ SchemaValid s := b
             | nil => exact absurd rfl h.1
             | cons _ _ => simp
 
-/-- the only exception the validation can raise is the `KeyError` of `field["name"]` -/
-theorem validateFields_error (fs : List Field) (e : Err) (h : validateFields fs = .error e) :
-    e = .key ∧ ∃ f ∈ fs, f.name = none := by
+/-- the validation never raises (since commit c90071b a field without `name` is reported as invalid) -/
+theorem validateFields_total (fs : List Field) : ∃ b, validateFields fs = .ok b := by
   induction fs with
-  | nil => simp [validateFields] at h
+  | nil => exact ⟨true, rfl⟩
   | cons f t ih =>
-    unfold validateFields at h
-    cases hn : f.name with
-    | none =>
-      simp [hn] at h
-      exact ⟨h.symm, f, by simp, hn⟩
-    | some n =>
-      simp only [hn] at h
-      split at h
-      · cases h
-      · split at h
-        · cases h
-        · split at h
-          · cases h
-          · obtain ⟨h1, f', hf', h2⟩ := ih h
-            exact ⟨h1, f', by simp [hf'], h2⟩
+    unfold validateFields
+    split
+    · exact ⟨false, rfl⟩
+    · split
+      · exact ⟨false, rfl⟩
+      · split
+        · exact ⟨false, rfl⟩
+        · split
+          · exact ⟨false, rfl⟩
+          · exact ih
 
-theorem validate_error (s : Schema) (e : Err) (h : validate s = .error e) :
-    e = .key ∧ ∃ fs, s.fields = some fs ∧ ∃ f ∈ fs, f.name = none := by
-  unfold validate at h
-  split at h
-  · rename_i d m fs hd hm hf
-    split at h
-    · obtain ⟨h1, h2⟩ := validateFields_error fs e h
-      exact ⟨h1, fs, hf, h2⟩
-    · cases h
-  · cases h
+theorem validate_total (s : Schema) : ∃ b, validate s = .ok b := by
+  unfold validate
+  split
+  · split
+    · exact validateFields_total _
+    · exact ⟨false, rfl⟩
+  · exact ⟨false, rfl⟩
+
+theorem validate_error (s : Schema) (e : Err) (h : validate s = .error e) : False := by
+  obtain ⟨b, hb⟩ := validate_total s
+  rw [hb] at h; cases h
 
 end Scsv
